@@ -509,7 +509,12 @@ class _Gen(object):
         if scope == 'class' and k == 'prop' and r.random() < 0.7:
             for which in r.sample(['setter', 'deleter'], r.randint(1, 2)):
                 m.features.add('property-' + which)
+                under = r.random() < 0.4
                 m.emit(pad + '@%s.%s' % (name, which))
+                if under:
+                    # the usual order: `@prop.setter` on top of a wrapper, so the accessor decorator is NOT the one next to the def
+                    m.emit(pad + r.choice(['@deco', '@deco_factory(2)']))
+                    m.features.add('property-accessor:wrapper-below')
                 m.emit(pad + 'def %s(self%s):' % (name, ', value' if which == 'setter' else ''))
                 dd = self.emit_docstring(indent + 4, callname + '.' + which)
                 self.forget(dd)
